@@ -121,6 +121,32 @@ theorem converged_spec (c : Comp Θ S L σ) (k : Core Θ S L σ) :
     | none => simp
     | some m => simp
 
+/-- **the stop rule reads the calibrator's history and its precision, nothing else**: two calibrator states with the same
+recorded losses and the same precision take the same decision — whatever their line-ups, scheduler objects, generator
+positions or counters are -/
+theorem converged_depends_only_on_history (c : Comp Θ S L σ) (k k' : Core Θ S L σ)
+    (hl : k.losses = k'.losses) (hp : k.cfg.convPrec = k'.cfg.convPrec) : converged c k = converged c k' := by
+  unfold converged; rw [hl, hp]
+
+/-- replacing the line-up or the scheduler between two `calibrate()` calls does not change the decision the next batch
+meets: a history whose smallest loss already rounds to zero still stops the run, an unconverged one still does not -/
+theorem converged_setScheduler (c : Comp Θ S L σ) (samplers : List (Smp σ)) (sched : Sched) (s : State Θ S L σ) :
+    converged c (setScheduler samplers sched s).core = converged c s.core :=
+  converged_depends_only_on_history c _ _ rfl rfl
+
+theorem converged_setSamplers (c : Comp Θ S L σ) (samplers : List (Smp σ)) (s : State Θ S L σ) :
+    converged c (setSamplers samplers s).core = converged c s.core :=
+  converged_depends_only_on_history c _ _ rfl rfl
+
+/-- a calibrator that starts with an empty history never stops before its first recorded loss: nothing a scheduler
+object went through earlier can end a new calibration -/
+theorem not_converged_on_empty_history (c : Comp Θ S L σ) (k : Core Θ S L σ) (h : k.losses = []) :
+    converged c k = false := by
+  unfold converged
+  cases k.cfg.convPrec with
+  | none => rfl
+  | some p => simp [h, minLoss]
+
 /-- `minLoss` returns an element of the list that no element is smaller than — it really is the smallest loss
 found so far — for any strict weak order `<` (irreflexive, transitive, incomparability transitive) -/
 theorem minLoss_spec (lt : L → L → Bool) (hirr : ∀ a, lt a a = false)
